@@ -3,12 +3,15 @@
 # env TIER=thorough for the thorough tier.
 P=$(readlink -f "$1"); shift
 cd /repo || exit 2
-if ! git diff --quiet; then echo "/repo has uncommitted changes; refusing"; exit 2; fi
-trap 'git -C /repo checkout -- . ; echo "[reverted /repo]"' EXIT
+# background seed sweeps (tools/sweep.sh) must not see the changed tree
+touch /verif/.work/MUT_LOCK
+while [ -e /verif/.work/SWEEP_BUSY ]; do sleep 2; done
+if ! git diff --quiet; then echo "/repo has uncommitted changes; refusing"; rm -f /verif/.work/MUT_LOCK; exit 2; fi
+trap 'git -C /repo checkout -- . ; rm -f /verif/.work/MUT_LOCK; echo "[reverted /repo]"' EXIT
 git apply "$P" || { echo "patch does not apply"; exit 2; }
 cd /verif
 for id in "$@"; do
   echo "=== $id (${TIER:-quick}) on $(basename $(dirname $P))"
-  ./vcheck run $id --tier ${TIER:-quick} 2>&1 | grep -E "VIOLATION|KNOWN-FINDING|MACHINERY|^C[0-9]+ |^  " | head -${LINES_MAX:-12}
+  VERIF_DEV_EVIDENCE_DIR=/verif/.work/ev_mut ./vcheck run $id --tier ${TIER:-quick} 2>&1 | grep -E "VIOLATION|KNOWN-FINDING|MACHINERY|^C[0-9]+ |^  " | head -${LINES_MAX:-12}
   echo "rc=${PIPESTATUS[0]}"
 done
